@@ -1244,6 +1244,37 @@ func (g *Gen) History() []E {
 	if (g.P.Name == "reads" || g.P.Name == "general") && g.P.Indexes && g.chance(0.35) {
 		evs = append(evs, g.lifecycleSweep()...)
 	}
+	if g.P.Name == "derived" && g.P.PrefixNames && len(g.colls) >= 3 && g.chance(0.5) {
+		// a collection is dropped whose name is a prefix of its siblings' names: every derived read on the siblings
+		// still agrees with FindAll (their documents, their counts and their ids are untouched)
+		for _, c := range g.colls[:3] {
+			if !g.created[c] {
+				g.created[c] = true
+				g.live[c] = map[string]bool{}
+				g.idx[c] = map[string]bool{}
+				evs = append(evs, E{"op": "CreateCollection", "c": c})
+			}
+			if free := g.freeIds(c); len(free) >= 2 {
+				evs = append(evs, E{"op": "Insert", "c": c, "docs": []interface{}{g.doc(AStr(free[0])), g.doc(AStr(free[1]))}})
+				g.noteInsert(c, free[0], free[1])
+			}
+		}
+		g.created[g.colls[0]] = false
+		g.live[g.colls[0]] = map[string]bool{}
+		g.idx[g.colls[0]] = map[string]bool{}
+		evs = append(evs, E{"op": "DropCollection", "c": g.colls[0]})
+		for _, c := range g.colls[1:3] {
+			var ids []interface{}
+			for id := range g.live[c] {
+				ids = append(ids, B(id))
+				if len(ids) == 2 {
+					break
+				}
+			}
+			evs = append(evs, E{"op": "Derived", "c": c, "q": []interface{}{}, "js": []interface{}{0, 1}, "ids": ids})
+			evs = append(evs, E{"op": "Derived", "c": c, "q": []interface{}{[]interface{}{"sort", []interface{}{}}, []interface{}{"skip", 1}}, "js": []interface{}{1}, "ids": ids})
+		}
+	}
 	if (g.P.Name == "sort" || g.P.Name == "ties" || g.P.Name == "reads") && g.P.NumTable == "general" && g.chance(0.4) {
 		evs = append(evs, g.mixedNumbersSweep()...)
 	}
